@@ -40,7 +40,7 @@ def run(pid, tier, seed):
     try:
         binp = pool.build_pool_harness(scratch)
         depth = 4 if tier == "quick" else 6
-        optsets = [1, 2, 3, 6, 7, 8] if tier == "quick" else [1, 2, 3, 4, 5, 6, 7, 8, 9]
+        optsets = [1, 2, 3, 5, 6, 7, 8] if tier == "quick" else [1, 2, 3, 4, 5, 6, 7, 8, 9]
         problems, stats = [], []
         cfgp = scratch.path("GCPME_bfs.cfg")
         write_cfg(cfgp, depth, "bfs", FAM[pid], optsets)
